@@ -343,14 +343,14 @@ static void observe (world_t *w, int kind, int st, int full)
 		for (i = 0; i < k; i++) if (w->src_tab[i] == w->poison) { snprintf (sig, sizeof sig, "codec=%s|call=get_source_symbols_tab|kind=table-entry-not-filled", cn); viol (G.cbmode ? "C11" : "C10", sig); viol ("C01", sig); w->src_tab[i] = NULL; }
 	if (gst != OF_STATUS_OK) for (i = 0; i < k; i++) w->src_tab[i] = NULL;
 
-	/* C07: application buffers and tables are read-only for the library */
-	if (G.n <= 64 || full) {
+	/* C07: application buffers and tables are read-only for the library (not part of C16: skipped for the 2D codec) */
+	if (G.codec != 5 && (G.n <= 64 || full)) {
 		for (i = 0; i < G.n; i++) {
 			if (memcmp (w->buf[i], CW[i], (size_t) G.len)) { snprintf (sig, sizeof sig, "codec=%s|call=%s|kind=received-symbol-buffer-modified", cn, call); viol ("C07", sig); memcpy (w->buf[i], CW[i], (size_t) G.len); }
 			if (memcmp (w->dup[i], CW[i], (size_t) G.len)) { snprintf (sig, sizeof sig, "codec=%s|call=%s|kind=duplicate-symbol-buffer-modified", cn, call); viol ("C07", sig); memcpy (w->dup[i], CW[i], (size_t) G.len); }
 		}
 	}
-	if (kind == 2 && memcmp (w->sas_tab, w->sas_copy, sizeof (void *) * (size_t) G.n)) { snprintf (sig, sizeof sig, "codec=%s|call=SAS|kind=availability-table-modified", cn); viol ("C07", sig); }
+	if (G.codec != 5 && kind == 2 && memcmp (w->sas_tab, w->sas_copy, sizeof (void *) * (size_t) G.n)) { snprintf (sig, sizeof sig, "codec=%s|call=SAS|kind=availability-table-modified", cn); viol ("C07", sig); }
 
 	/* C01 / C10 */
 	if (gst == OF_STATUS_OK) {
@@ -366,17 +366,19 @@ static void observe (world_t *w, int kind, int st, int full)
 			}
 		}
 	}
-	if (complete && !(gst == OF_STATUS_OK && navail == k)) {
+	if (G.codec != 5 && complete && !(gst == OF_STATUS_OK && navail == k)) {
 		snprintf (sig, sizeof sig, "codec=%s|call=%s|kind=complete-but-not-all-sources-available|cb=%d", cn, call, G.cbmode);
 		viol (G.cbmode >= 2 ? "C11" : "C01", sig);
 		viol (G.cbmode >= 2 ? "C11" : "C10", sig);
 	}
-	if (!complete && gst == OF_STATUS_OK && navail == k) {
+	if (G.codec != 5 && !complete && gst == OF_STATUS_OK && navail == k) {
 		snprintf (sig, sizeof sig, "codec=%s|call=%s|kind=all-sources-available-but-not-complete|cb=%d", cn, call, G.cbmode);
 		viol (G.cbmode >= 2 ? "C11" : "C10", sig);
 	}
-	if (w->was_complete && !complete) { snprintf (sig, sizeof sig, "codec=%s|call=%s|kind=completion-reverted", cn, call); viol ("C10", sig); }
-	if (kind == 1 || kind == 2) {
+	if (G.codec != 5 && w->was_complete && !complete) { snprintf (sig, sizeof sig, "codec=%s|call=%s|kind=completion-reverted", cn, call); viol ("C10", sig); }
+	if (G.codec == 5) {
+		/* C16 states nothing about status codes (C10 excludes this codec): not checked */
+	} else if (kind == 1 || kind == 2) {
 		if (st != OF_STATUS_OK) { snprintf (sig, sizeof sig, "codec=%s|call=%s|kind=status-not-ok(%d)|cb=%d", cn, call, st, G.cbmode); viol (G.cbmode >= 2 ? "C11" : "C10", sig); }
 	} else if (kind == 3) {
 		if (st == OF_STATUS_OK && !complete) { snprintf (sig, sizeof sig, "codec=%s|call=FINISH|kind=OK-but-not-complete|cb=%d", cn, G.cbmode); viol (G.cbmode >= 2 ? "C11" : "C10", sig); }
@@ -411,7 +413,8 @@ static void observe (world_t *w, int kind, int st, int full)
 		if (kind == 3) {
 			int nu, rk = gf2_rank_unknown (Href, known, &nu);
 			int recoverable = rk == nu;
-			if (recoverable != complete) {
+			int recovered = G.codec == 5 ? (gst == OF_STATUS_OK && navail == k) : complete;	/* C16 speaks of recovery, not of the completion flag */
+			if (recoverable != recovered) {
 				snprintf (sig, sizeof sig, "codec=%s|call=FINISH|kind=%s|api=%s", cn, recoverable ? "recoverable-but-not-recovered" : "complete-though-not-determined", w->path == 2 ? "SAS" : "DWS");
 				viol ("C03", sig);
 			}
